@@ -156,6 +156,27 @@ CLAIMS['C24'] = dict(
          'evaluates a tree of only those node types without calls, attribute access or subscripts. Other '
          'evaluator instances (host ranking) share the same _eval code; only the closure is verified.')
 
+CLAIMS['C13'] = dict(
+    category='other',
+    text='Two parts. PROVED (all states, no bound): the Prerequisite class against its bodies - is_satisfied() '
+         'returns exactly Sat(self) = "no keys, or the conditional expression over the truthy keys if there is one, '
+         'else every recorded value truthy"; the cache field is either empty or equal to Sat(self) after '
+         '__setitem__ (text and bool values), satisfy_me, set_satisfied and unset_naturally_satisfied, so the '
+         'answer after each satisfy_me is never a stale cached value; satisfy_me satisfies exactly the given '
+         'recorded outputs and changes nothing else. The expression is an abstract MONOTONE function CE(text, set '
+         'of truthy keys). BOUNDED stand-in, not a proof: that the text produced by GraphParser -> generate_triggers '
+         '-> Dependency.get_prerequisite -> set_conditional_expr denotes the user\'s boolean expression is compared '
+         'natively for every and/or tree with <= 3 (quick) / 4 (thorough) atoms drawn from a name-collision pool '
+         '(prefix/suffix/substring names, names with -+%@, custom outputs, offsets, negative integer points, '
+         'time-zoned datetime points), after every single satisfy_me along a random order. Level "other" because '
+         'the property as a whole rests on the bounded part.',
+    note=_PROOF_NOTE + 'Assumed: A-MONO (trigger expressions contain and/or only, so more satisfied keys never turn '
+         'the expression false; instantiated between every two CE terms on a path); False is modelled as the empty '
+         'text; PrereqTuple.coerce is the identity on text keys; precondition wf (an expression comes with recorded '
+         'keys and is only set after all keys are recorded) is checked on every prerequisite the bounded stand-in '
+         'builds but is not proved of Dependency.get_prerequisite. The bounded stand-in found two defects (graph '
+         'parser name boundary, message-in-message rewriting), repaired by fix: commits d849c4a and 9ba9084.')
+
 NOT_APPLICABLE = {
     'C01': 'equality between the set of instances submitted over a whole run and the spawn-on-demand closure, for '
            'every schedule: a whole-history property; no postcondition of one call states it. Its per-call '
